@@ -8,6 +8,7 @@ from . import names as N
 
 LADDER = [0, 1, 2, 3, 4, 5, 8, 12]
 WORDS = ["x", "dm", "y_1", "beta", "CKM", "on", "off", "alpha", "-x", "+y", "q2", "FF", "w'"]
+FLOATLIKE = ["inf", "nan", "-Infinity", "+nan", "NaN", "Inf", "-inf", "infinity", "e5", "E-3"]   # words, not numeric literals of the language
 
 
 @functools.lru_cache(maxsize=None)
@@ -66,9 +67,11 @@ class Gen:
             elif x < 0.7 and defs:
                 d = r.choice(list(defs))
                 out.append(("-" if r.random() < 0.3 else "") + d)
-            elif x < 0.85:
+            elif x < 0.82:
                 w = r.choice(WORDS)
                 out.append(w if L.label_ok(w, self.allmodels) else "x")
+            elif x < 0.86:
+                out.append(r.choice(FLOATLIKE))
             else:
                 out.append(self.label())
         return out
